@@ -168,8 +168,19 @@ def rand_ops(rng, pars, edges, n, opt_budget):
                     ["block", [rand_simple_op(rng, pars, edges) for _ in range(rng.randint(1, 2))]],
                 )
             ops.append(["block", inner])
-        elif r < 0.88:
+        elif r < 0.83:
             ops.append(["calc", rng.randrange(10**9), rng.randint(3, 12)])
+        elif r < 0.90:
+            # several independent inputs changed, then an alignment that cannot be digested (inside one
+            # postponed block or not): the recalculation raises part way; the caller repairs the alignment only
+            body = [rand_rule(rng, pars, edges) for _ in range(rng.randint(1, 3))]
+            if rng.random() < 0.4:
+                body.append(rand_mprobs(rng))
+            ops.append(["failrepair", body, rng.random() < 0.7, rng.randrange(4)])
+        elif r < 0.95:
+            # a multi-scope rule that is valid for some scopes and fails validation on ONE of them
+            par = rng.choice(pars + ["length"]) if pars else "length"
+            ops.append(["latefail", par, rng.choice(edges), rng.random() < 0.5])
         else:
             ops.append(["opt", dict(max_evaluations=rng.choice(opt_budget), local=True)])
     return ops
@@ -438,6 +449,39 @@ def close(a, b, rtol=RTOL):
     if a == b:
         return True
     return abs(a - b) <= rtol * max(1.0, abs(a), abs(b))
+
+
+def bad_alignment(case, idx):
+    """an alignment the likelihood function cannot digest: the right sequence names, but a character
+    outside the model's alphabet, so the recalculation downstream of the alignment raises"""
+    from cogent3 import make_aligned_seqs
+
+    good = case_alns(case, idx)
+    d = good.to_dict()
+    k = sorted(d)[0]
+    d[k] = "Q" + d[k][1:]
+    return make_aligned_seqs(d, moltype="text")
+
+
+def rules_canon(lf):
+    import json
+
+    with _Quiet():
+        rules = lf.get_param_rules()
+
+    def enc(v):
+        if hasattr(v, "tolist"):
+            return v.tolist()
+        if isinstance(v, dict):
+            return {str(k): enc(x) for k, x in v.items()}
+        if isinstance(v, (list, tuple)):
+            return [enc(x) for x in v]
+        try:
+            return float(v) if not isinstance(v, (str, bool, type(None))) else v
+        except (TypeError, ValueError):
+            return repr(v)
+
+    return sorted(json.dumps({k: enc(v) for k, v in r.items()}, sort_keys=True) for r in rules)
 
 
 def fresh_from_rules(case, lf, aln_idx, reorder=False):
